@@ -543,6 +543,8 @@ def run_case(case, singles=None):
                 out.vac("later_overwrites")
 
     if False in marked and True in marked:
+        # not a verdict: expose in the outcome histogram whether all_touched added anything at all
+        cat = "%s+%s" % (cat, "at_adds" if bool((marked[True] & ~marked[False]).any()) else "at_same")
         out.expect("all_touched_superset", bool((marked[True] | ~marked[False]).all()),
                    marked[True].astype(int).tolist(), "superset of " + str(marked[False].astype(int).tolist()),
                    {"fn": FN, "kind": "line_string_all_touched"} if "line" in kinds else
